@@ -1,10 +1,556 @@
 package main
 
 import (
+	"encoding/json"
+	"flag"
 	"fmt"
-	_ "golang.org/x/tools/go/packages"
-	_ "golang.org/x/tools/go/ssa"
-	_ "golang.org/x/tools/go/ssa/ssautil"
+	"os"
+	"path/filepath"
+	"sort"
+	"strconv"
+	"strings"
+	"time"
+
+	"golang.org/x/tools/go/ssa"
 )
 
-func main() { fmt.Println("ok") }
+func main() {
+	if len(os.Args) < 2 {
+		fmt.Fprintln(os.Stderr, "usage: govc check <property> [flags] | govc dump <func-key> | govc list")
+		os.Exit(2)
+	}
+	switch os.Args[1] {
+	case "check":
+		os.Exit(cmdCheck(os.Args[2:]))
+	case "list":
+		os.Exit(cmdList(os.Args[2:]))
+	default:
+		fmt.Fprintln(os.Stderr, "unknown command", os.Args[1])
+		os.Exit(2)
+	}
+}
+
+type Options struct {
+	repo     string
+	verif    string
+	tier     string
+	only     string
+	verbose  bool
+	keep     bool
+	timeoutS int
+	extspec  string
+}
+
+func parseOpts(args []string) (*Options, []string) {
+	fs := flag.NewFlagSet("govc", flag.ExitOnError)
+	o := &Options{}
+	fs.StringVar(&o.repo, "repo", "/repo", "repository working tree")
+	fs.StringVar(&o.verif, "verif", "/verif", "verification directory")
+	fs.StringVar(&o.tier, "tier", envOr("VERIF_TIER", "quick"), "quick|thorough")
+	fs.StringVar(&o.extspec, "extspec", "", "directory of external .spec files (default <verif>/contracts/external)")
+	fs.StringVar(&o.only, "only", "", "restrict to functions whose key contains this substring")
+	fs.BoolVar(&o.verbose, "v", false, "verbose")
+	fs.BoolVar(&o.keep, "keep", false, "keep all SMT scripts")
+	fs.IntVar(&o.timeoutS, "timeout", 0, "per-obligation solver timeout (s)")
+	var pos []string
+	// allow flags after positional args
+	for len(args) > 0 {
+		fs.Parse(args)
+		if fs.NArg() == 0 {
+			break
+		}
+		pos = append(pos, fs.Arg(0))
+		args = fs.Args()[1:]
+	}
+	if o.extspec == "" {
+		o.extspec = filepath.Join(o.verif, "contracts", "external")
+	}
+	if o.tier != "thorough" {
+		o.tier = "quick"
+	}
+	if o.timeoutS == 0 {
+		if o.tier == "thorough" {
+			o.timeoutS = 60
+		} else {
+			o.timeoutS = 10
+		}
+	}
+	return o, pos
+}
+
+func envOr(k, d string) string {
+	if v := os.Getenv(k); v != "" {
+		return v
+	}
+	return d
+}
+
+func loadAll(o *Options) (*World, error) {
+	w, err := LoadWorld(o.repo)
+	if err != nil {
+		return nil, err
+	}
+	w.scanBoxed()
+	// types mentioned in contracts may be boxed too: parse specs once to collect them before Iface is fixed
+	if err := w.LoadSpecs(o.extspec); err != nil {
+		return nil, err
+	}
+	w.noteSpecTypes()
+	return w, nil
+}
+
+// noteSpecTypes registers every named struct / pointer type mentioned in `is T`, T{...} or T(x) in specs.
+func (w *World) noteSpecTypes() {
+	var walk func(sf *SpecFile, e SExpr)
+	note := func(sf *SpecFile, st *SType) {
+		if st == nil {
+			return
+		}
+		if t, err := w.ResolveType(sf, st); err == nil {
+			w.NoteBoxed(t)
+		}
+	}
+	walk = func(sf *SpecFile, e SExpr) {
+		switch n := e.(type) {
+		case *SBinary:
+			walk(sf, n.X)
+			walk(sf, n.Y)
+		case *SUnary:
+			walk(sf, n.X)
+		case *SCall:
+			if ty := exprAsType(n.Fun); ty != nil {
+				note(sf, ty)
+			}
+			for _, a := range n.Args {
+				walk(sf, a)
+			}
+		case *SSelect:
+			walk(sf, n.X)
+		case *SIndex:
+			walk(sf, n.X)
+			walk(sf, n.I)
+		case *SQuant:
+			walk(sf, n.Body)
+		case *SCond:
+			walk(sf, n.C)
+			walk(sf, n.A)
+			walk(sf, n.B)
+		case *SComposite:
+			note(sf, n.Type)
+			for _, f := range n.Fields {
+				walk(sf, f.Val)
+			}
+		case *SIs:
+			note(sf, n.Type)
+			walk(sf, n.X)
+		case *SLet:
+			walk(sf, n.Val)
+			walk(sf, n.Body)
+		}
+	}
+	for _, sf := range w.Specs {
+		for _, p := range sf.Pures {
+			walk(sf, p.Body)
+		}
+		for _, a := range sf.Axioms {
+			walk(sf, a.Expr)
+		}
+		for _, f := range sf.Funcs {
+			var cs []*Clause
+			cs = append(cs, f.Requires...)
+			cs = append(cs, f.Ensures...)
+			cs = append(cs, f.Panics...)
+			for _, l := range f.Loops {
+				cs = append(cs, l.Invariants...)
+			}
+			for _, l := range f.Iters {
+				cs = append(cs, l.Invariants...)
+			}
+			for _, c := range cs {
+				walk(sf, c.Expr)
+			}
+		}
+	}
+}
+
+func hasTag(tags []string, t string) bool {
+	for _, x := range tags {
+		if x == t {
+			return true
+		}
+	}
+	return false
+}
+
+func cmdList(args []string) int {
+	o, _ := parseOpts(args)
+	w, err := loadAll(o)
+	if err != nil {
+		fmt.Fprintln(os.Stderr, "load:", err)
+		return 2
+	}
+	var keys []string
+	for k := range w.FuncSpecs {
+		keys = append(keys, k)
+	}
+	sort.Strings(keys)
+	for _, k := range keys {
+		fs := w.FuncSpecs[k]
+		kind := "repo"
+		if fs.External {
+			kind = "ext "
+		}
+		fmt.Printf("%s %-70s tags=%v\n", kind, shortFn(k), specTags(fs))
+	}
+	return 0
+}
+
+type funcReport struct {
+	Key         string
+	Paths       int
+	Obligations int
+	Inlined     []string
+	Assumed     []string
+	Havocked    []string
+	Err         string
+}
+
+func cmdCheck(args []string) int {
+	t0 := time.Now()
+	o, pos := parseOpts(args)
+	if len(pos) != 1 {
+		fmt.Fprintln(os.Stderr, "usage: govc check <property-id>")
+		return 2
+	}
+	prop := pos[0]
+	seed, _ := strconv.Atoi(envOr("VERIF_SEED", "0"))
+	w, err := loadAll(o)
+	if err != nil {
+		fmt.Fprintln(os.Stderr, "infrastructure failure (no verdict):", err)
+		return 2
+	}
+	tLoad := time.Since(t0).Seconds()
+
+	var all []*Obligation
+	var reports []*funcReport
+	assumed := map[string]bool{}
+	havocked := map[string]bool{}
+	inlined := map[string]bool{}
+	var keys []string
+	for k, fs := range w.FuncSpecs {
+		if fs.External || fs.Trusted {
+			continue
+		}
+		if !hasTag(specTags(fs), prop) {
+			continue
+		}
+		if o.only != "" && !strings.Contains(k, o.only) {
+			continue
+		}
+		keys = append(keys, k)
+	}
+	sort.Strings(keys)
+	var failClosed []*Obligation
+	for _, k := range keys {
+		fs := w.FuncSpecs[k]
+		rep := &funcReport{Key: shortFn(k)}
+		reports = append(reports, rep)
+		fn := w.LookupFunc(k)
+		if fn == nil {
+			ob := &Obligation{Name: "bind." + shortFn(k), Func: shortFn(k), Kind: "bind", Status: "failed", Tags: []string{prop},
+				Note: "contract does not bind to any function of the current tree (renamed or deleted?)", Expect: "unsat"}
+			failClosed = append(failClosed, ob)
+			rep.Err = ob.Note
+			continue
+		}
+		ex := NewExec(w, fn, fs)
+		obls, err := runExec(ex)
+		rep.Paths = ex.paths + 1
+		for n := range ex.inlined {
+			rep.Inlined = append(rep.Inlined, n)
+			inlined[n] = true
+		}
+		for n := range ex.assumed {
+			rep.Assumed = append(rep.Assumed, n)
+			assumed[n] = true
+		}
+		for n := range ex.havocked {
+			rep.Havocked = append(rep.Havocked, n)
+			havocked[n] = true
+		}
+		sort.Strings(rep.Inlined)
+		sort.Strings(rep.Assumed)
+		sort.Strings(rep.Havocked)
+		if err != nil {
+			ob := &Obligation{Name: "subset." + shortFn(k), Func: shortFn(k), Kind: "subset", Status: "failed", Tags: []string{prop},
+				Note: err.Error(), Expect: "unsat"}
+			failClosed = append(failClosed, ob)
+			rep.Err = err.Error()
+			continue
+		}
+		for _, ob := range obls {
+			if hasTag(ob.Tags, prop) {
+				all = append(all, ob)
+				rep.Obligations++
+			}
+		}
+	}
+	tGen := time.Since(t0).Seconds() - tLoad
+
+	d := &Discharger{outDir: filepath.Join(o.verif, "out", "vc", prop), timeoutS: o.timeoutS, thorough: o.tier == "thorough"}
+	os.RemoveAll(d.outDir)
+	all = pruneCovers(all)
+	d.Run(w, all, 16)
+	all = append(all, failClosed...)
+
+	return report(o, w, prop, seed, all, reports, d, assumed, havocked, inlined, tLoad, tGen, t0)
+}
+
+func runExec(ex *Exec) (obls []*Obligation, err error) {
+	defer func() {
+		if r := recover(); r != nil {
+			switch e := r.(type) {
+			case specErr:
+				err = fmt.Errorf("contract error: %s", e.msg)
+			case subsetErr:
+				err = e
+			default:
+				panic(r)
+			}
+		}
+	}()
+	return ex.Run()
+}
+
+func report(o *Options, w *World, prop string, seed int, all []*Obligation, reports []*funcReport, d *Discharger,
+	assumed, havocked, inlined map[string]bool, tLoad, tGen float64, t0 time.Time) int {
+	nProof, nDis, nCover, nCovered := 0, 0, 0, 0
+	var failed, undecided, vacuous []*Obligation
+	// a return site (or the precondition) is vacuous only if every path reaching it is infeasible
+	siteOf := func(ob *Obligation) string { return ob.Func + "/" + strings.SplitN(ob.Name, "~", 2)[0] }
+	siteCovered := map[string]bool{}
+	siteUnknown := map[string]bool{}
+	siteFirst := map[string]*Obligation{}
+	var siteOrder []string
+	for _, ob := range all {
+		if ob.Expect != "sat" {
+			continue
+		}
+		k := siteOf(ob)
+		if siteFirst[k] == nil {
+			siteFirst[k] = ob
+			siteOrder = append(siteOrder, k)
+		}
+		switch ob.Status {
+		case "covered":
+			siteCovered[k] = true
+		case "vacuous":
+		default:
+			siteUnknown[k] = true
+		}
+	}
+	for _, k := range siteOrder {
+		nCover++
+		if siteCovered[k] {
+			nCovered++
+		} else if !siteUnknown[k] {
+			vacuous = append(vacuous, siteFirst[k])
+		}
+	}
+	for _, ob := range all {
+		if ob.Expect == "sat" {
+			continue
+		}
+		nProof++
+		switch ob.Status {
+		case "discharged":
+			nDis++
+		case "failed":
+			failed = append(failed, ob)
+		default:
+			undecided = append(undecided, ob)
+		}
+	}
+	exit := 0
+	replayDir := filepath.Join(o.verif, "out", "replays", prop)
+	os.RemoveAll(replayDir)
+	var violLines []string
+	for _, ob := range append(append([]*Obligation{}, failed...), undecided...) {
+		os.MkdirAll(replayDir, 0o755)
+		safe := strings.NewReplacer("/", "_", " ", "_", "*", "", "(", "", ")", "", "#", "-", "@", "-").Replace(ob.Func + "." + ob.Name)
+		path := filepath.Join(replayDir, safe+".json")
+		reason := "counterexample"
+		if ob.Status != "failed" {
+			reason = "undecided"
+		}
+		if ob.Kind == "bind" || ob.Kind == "subset" {
+			reason = ob.Kind
+		}
+		rp := map[string]interface{}{"property": prop, "obligation": ob.Func + "/" + ob.Name, "kind": ob.Kind, "clause": ob.Clause,
+			"position": ob.Pos, "path": ob.Path, "reason": reason, "backend": ob.Backend, "solver_output": ob.Model, "note": ob.Note,
+			"replayed_on_real_code": false}
+		suffix := " no-failing-input-found"
+		if rr := replayObligation(o, w, ob); rr != nil {
+			for k, v := range rr {
+				rp[k] = v
+			}
+			if rr["replayed_on_real_code"] == true && rr["reproduced"] == true {
+				suffix = ""
+			}
+		}
+		b, _ := json.MarshalIndent(rp, "", " ")
+		os.WriteFile(path, b, 0o644)
+		violLines = append(violLines, fmt.Sprintf("VIOLATION property=%s replay=%s obligation=%s status=%s%s", prop, path, ob.Func+"/"+ob.Name, ob.Status, suffix))
+		exit = 1
+	}
+	if len(vacuous) > 0 || nProof == 0 {
+		exit = maxInt(exit, 2)
+	}
+	// evidence
+	var samples []map[string]interface{}
+	for i, ob := range all {
+		if ob.Expect == "sat" || ob.Trivial {
+			continue
+		}
+		if len(samples) >= 8 && ob.Status == "discharged" {
+			continue
+		}
+		sz := 0
+		if ob.Script != nil {
+			sz = ob.Script.Size
+		}
+		samples = append(samples, map[string]interface{}{"obligation": ob.Func + "/" + ob.Name, "kind": ob.Kind, "status": ob.Status,
+			"backend": ob.Backend, "smt_bytes": sz, "time_s": round3(ob.TimeS), "pos": ob.Pos, "clause": ob.Clause})
+		_ = i
+	}
+	var fuc, inl, asm, hav []string
+	paths := 0
+	for _, r := range reports {
+		fuc = append(fuc, r.Key)
+		paths += r.Paths
+	}
+	for k := range inlined {
+		inl = append(inl, k)
+	}
+	for k := range assumed {
+		asm = append(asm, k)
+	}
+	for k := range havocked {
+		hav = append(hav, k)
+	}
+	sort.Strings(inl)
+	sort.Strings(asm)
+	sort.Strings(hav)
+	scan := map[string]int{}
+	for _, sf := range w.Specs {
+		for k, v := range sf.Tokens {
+			scan[k] += v
+		}
+	}
+	assumptions := []string{
+		"VC generator (govc) translates go/ssa naive form faithfully; go/packages+go/ssa front end; SMT solvers z3 5.1.0 / z3 4.8.12 / cvc5 1.0.3",
+		"integers are mathematical with explicit range facts; overflow is an obligation where safety is claimed, otherwise arithmetic is assumed not to wrap",
+		"slices are immutable sequences (no capacity/aliasing); strings are an uninterpreted sort with ==, concat, len",
+		"termination is not proved; package-level variables are immutable after init",
+	}
+	for _, a := range asm {
+		assumptions = append(assumptions, "assumed contract: "+a)
+	}
+	for _, h := range hav {
+		assumptions = append(assumptions, "no contract (havoc everything, sound but coarse): "+h)
+	}
+	assumptions = append(assumptions, propertyNotCovered[prop]...)
+	ev := map[string]interface{}{
+		"property_id": prop, "tier": o.tier, "seed": seed, "level": "proof", "wall_s": round3(time.Since(t0).Seconds()),
+		"violations": len(failed) + len(undecided),
+		"assumptions": assumptions,
+		"coverage": map[string]interface{}{
+			"obligations": nProof, "discharged": nDis,
+			"checker_cmd":  fmt.Sprintf("/verif/bin/govc check %s --tier %s", prop, o.tier),
+			"trusted_base": []string{"govc VC generator", "go/ssa (x/tools v0.29.0) naive form", "z3-new 5.1.0", "z3 4.8.12", "cvc5 1.0.3", "assumed dependency contracts in /verif/contracts/external"},
+			"samples":      samples, "functions_under_contract": fuc, "inlined": inl, "by_backend": d.byBack,
+			"solver_time_s": round3(d.solverS), "load_s": round3(tLoad), "vcgen_s": round3(tGen), "paths": paths,
+			"assumed_contracts": asm, "uncontracted_callees": hav,
+			"vacuity":        map[string]interface{}{"covers": nCover, "covered": nCovered, "vacuous": len(vacuous)},
+			"solver_splits":  d.splits,
+			"contract_token_scan": scan, "per_function": reports,
+			"failed": names(failed), "undecided": names(undecided),
+		},
+	}
+	os.MkdirAll(filepath.Join(o.verif, "evidence"), 0o755)
+	b, _ := json.MarshalIndent(ev, "", " ")
+	os.WriteFile(filepath.Join(o.verif, "evidence", prop+".json"), b, 0o644)
+
+	fmt.Printf("property %s tier=%s: %d functions, %d paths, %d proof obligations, %d discharged, %d failed, %d undecided; covers %d/%d; load %.1fs gen %.1fs solver %.1fs wall %.1fs\n",
+		prop, o.tier, len(reports), paths, nProof, nDis, len(failed), len(undecided), nCovered, nCover, tLoad, tGen, d.solverS, time.Since(t0).Seconds())
+	if o.verbose {
+		for _, r := range reports {
+			fmt.Printf("  %-60s paths=%d obls=%d %s\n", r.Key, r.Paths, r.Obligations, r.Err)
+		}
+	}
+	for _, ob := range vacuous {
+		fmt.Printf("VACUITY GUARD TRIPPED: %s/%s is unsatisfiable (contradictory assumptions)\n", ob.Func, ob.Name)
+	}
+	if nProof == 0 {
+		fmt.Println("VACUITY GUARD TRIPPED: no obligations generated")
+	}
+	for _, ob := range append(append([]*Obligation{}, failed...), undecided...) {
+		fmt.Printf("  FAILED %s/%s [%s] %s %s %s\n", ob.Func, ob.Name, ob.Status, ob.Pos, ob.Clause, ob.Note)
+	}
+	for _, l := range violLines {
+		fmt.Println(l)
+	}
+	return exit
+}
+
+func names(obs []*Obligation) []string {
+	out := []string{}
+	for _, o := range obs {
+		out = append(out, o.Func+"/"+o.Name)
+	}
+	return out
+}
+
+func maxInt(a, b int) int {
+	if a > b {
+		return a
+	}
+	return b
+}
+
+func round3(f float64) float64 { return float64(int(f*1000+0.5)) / 1000 }
+
+var propertyNotCovered = map[string][]string{}
+
+// replayObligation tries to reproduce a failed obligation on the real code (see replay.go).
+var replayObligation = func(o *Options, w *World, ob *Obligation) map[string]interface{} { return nil }
+
+var _ = ssa.NaiveForm
+
+// pruneCovers keeps cover.pre and, per return site, the two covers with the smallest path conditions.
+func pruneCovers(all []*Obligation) []*Obligation {
+	var out []*Obligation
+	best := map[string][]*Obligation{}
+	for _, ob := range all {
+		if ob.Expect != "sat" {
+			out = append(out, ob)
+			continue
+		}
+		site := ob.Func + "/" + strings.SplitN(ob.Name, "~", 2)[0]
+		best[site] = append(best[site], ob)
+	}
+	var sites []string
+	for k := range best {
+		sites = append(sites, k)
+	}
+	sort.Strings(sites)
+	for _, k := range sites {
+		cs := best[k]
+		sort.SliceStable(cs, func(i, j int) bool { return len(cs[i].PC) < len(cs[j].PC) })
+		if len(cs) > 4 {
+			cs = cs[:4]
+		}
+		out = append(out, cs...)
+	}
+	return out
+}
